@@ -6,6 +6,7 @@ import Bmc.Proofs.EndToEnd.SessionC03
 import Bmc.Proofs.EndToEnd.SessionlessC10
 import Bmc.Proofs.EndToEnd.SessionC10
 import Bmc.Proofs.EndToEnd.HistoryC10
+import Bmc.Proofs.EndToEnd.SessionlessHistory
 #print axioms Bmc.Proofs.C10.session_send_refines
 #print axioms Bmc.Proofs.C10.lost_in_session_stops
 #print axioms Bmc.Proofs.C10.final_is_not_temporary
@@ -33,3 +34,6 @@ import Bmc.Proofs.EndToEnd.HistoryC10
 #print axioms Bmc.Proofs.EndToEnd.runHistory_is_the_contract
 #print axioms Bmc.Proofs.EndToEnd.generated_history_is_the_contract
 #print axioms Bmc.Proofs.EndToEnd.contract_count_busy_then_final
+#print axioms Bmc.Proofs.EndToEnd.generated_sessionless_history
+#print axioms Bmc.Proofs.EndToEnd.generated_sessionless_history_ignores_connection
+#print axioms Bmc.Proofs.EndToEnd.generated_sessionless_history_null
